@@ -75,6 +75,7 @@ def scan_reference(ctx, repo):
     ctx.call(RSB.r_parser_lookahead, repo)
     ctx.call(RSB.r_simple_key_limit, repo)
     ctx.call(RX.r_docmarker_column0, repo)
+    ctx.call(R10.r_docmarker_follow_agree, repo)
     ctx.call(RX.r_token_ready, repo)
     ctx.call(RX.r_column_per_char, repo)
     ctx.call(RX.r_plain_start_consumed, repo)
